@@ -380,5 +380,17 @@ B("c11-coalesce-stale-cache", ["C11", "C13"], ENGINE, "                last_warp
 
 B("c03-keyonly-multi-joined", ["C01", "C03", "C04"], SM, "            elif key in BaseSimfile.MULTI_VALUE_PROPERTIES and param.value is not None:", "            elif key in BaseSimfile.MULTI_VALUE_PROPERTIES:", "each parameter")
 P("p-keyonly-by-length", ["C01", "C03", "C04"], [(SM, "            elif key in BaseSimfile.MULTI_VALUE_PROPERTIES and param.value is not None:", "            elif key in BaseSimfile.MULTI_VALUE_PROPERTIES and len(param.components) > 1:")])
+# a process-wide cache: accepted when its key covers everything the cached computation reads, reported otherwise
+_CACHE_NEW = """        self.timing_data = timing_data
+        td = timing_data
+        key = (tuple(td.bpms), tuple(td.stops), tuple(td.delays), tuple(td.warps)%s)
+        if key not in _timelines:
+            self._retime_events()
+            _timelines[key] = (self._state_machine, self._tagged_beats, self._tagged_times)
+        self._state_machine, self._tagged_beats, self._tagged_times = _timelines[key]
+"""
+_CACHE_DECL = (ENGINE, "class TimingEngine:\n", "_timelines: dict = {}\n\n\nclass TimingEngine:\n")
+P("p-timeline-cache-complete-key", ["C11", "C12", "C13"], [(ENGINE, "        self.timing_data = timing_data\n        self._retime_events()\n", _CACHE_NEW % ", td.offset"), _CACHE_DECL])
+B("c11-timeline-cache-forgets-offset", ["C11", "C12", "C13"], ENGINE, "        self.timing_data = timing_data\n        self._retime_events()\n", _CACHE_NEW % "", "module-level state", more=[_CACHE_DECL])
 VARIANTS.append({"id": "g-negate-every-if-else", "props": ALL, "kind": "preserve", "edits": [], "transform": "negate_if"})
 VARIANTS.append({"id": "g-return-through-temp", "props": ALL, "kind": "preserve", "edits": [], "transform": "return_temp"})
